@@ -84,6 +84,8 @@ extern void (*g_crash_hook)(const char *sym, void *addr); // library crashed out
 void fill_garbage(uint8_t *p, size_t n, uint64_t seed);
 const char *fault_class_name(int c);
 // library image info (RW segment, symbols) — filled by libinfo_init()
+void reach_arm();  // diagnostic: SIM_REACH=<file>
+void reach_dump();
 struct LibSym {
         uintptr_t addr;
         size_t size;
